@@ -100,6 +100,65 @@ func samePath(a, b []string) bool {
 	return true
 }
 
+// anyNested: some error value of the case is itself the error of a one-node graph run by a
+// node body (its own path is [x]).
+func anyNested(c *Case) bool {
+	found := false
+	var walk func(g *Graph)
+	walk = func(g *Graph) {
+		for _, st := range g.Stages {
+			for _, n := range st {
+				if n.Err != nil && n.Err.Nested {
+					found = true
+				}
+				for _, t := range n.Tools {
+					if t.Err != nil && t.Err.Nested {
+						found = true
+					}
+				}
+				if n.Sub != nil {
+					walk(n.Sub)
+				}
+			}
+		}
+	}
+	walk(c.G)
+	return found || (c.InErr != nil && c.InErr.Nested)
+}
+
+// realPath: is path a path of existing nodes of g (sub-graph nodes descended into), optionally
+// followed by the path [x] a nested error value brought with it?  The empty path names no node.
+func realPath(g *Graph, path []string, nested bool) bool {
+	if len(path) == 0 {
+		return true
+	}
+	if nested && len(path) == 1 && path[0] == "x" {
+		return true
+	}
+	for _, st := range g.Stages {
+		for _, n := range st {
+			if n.Key != path[0] {
+				continue
+			}
+			rest := path[1:]
+			switch n.Kind {
+			case "sub":
+				return realPath(n.Sub, rest, nested)
+			case "tools": // the harness builds pre -> tn -> post under the node's key
+				if len(rest) == 0 {
+					return true
+				}
+				if rest[0] != "pre" && rest[0] != "tn" && rest[0] != "post" {
+					return false
+				}
+				rest = rest[1:]
+			}
+			return len(rest) == 0 || (nested && len(rest) == 1 && rest[0] == "x")
+		}
+	}
+	return false
+}
+
 func oracle(c *Case, o *Obs) (string, string) {
 	switch o.Class {
 	case "panic":
@@ -163,6 +222,10 @@ func oracle(c *Case, o *Obs) (string, string) {
 	}
 	if strings.Contains(p.Msg, "context canceled") && !p.Is[3] {
 		return "the error says the context was cancelled but errors.Is(err, context.Canceled) is false", "sentinel-not-matchable"
+	}
+	// whatever failed, the path the error names is a path of nodes that exist
+	if !realPath(c.G, p.MsgPath, anyNested(c)) {
+		return fmt.Sprintf("the error names the node path %v, which is not a path of nodes of the graph: %s", p.MsgPath, p.Msg), "path-not-a-node"
 	}
 	pathHit := false
 	for i := range eager {
@@ -254,6 +317,14 @@ func tagsOf(c *Case, o *Obs) []string {
 		}
 	}
 	walk(c.G)
+	for s, st := range c.G.Stages {
+		if len(st) == 1 && st[0].Beh == "item" && s+1 < len(c.G.Stages) && len(c.G.Stages[s+1]) >= 2 {
+			t = append(t, "has:shared-item")
+			if st[0].Err.Nested {
+				t = append(t, "has:shared-wrapper-item")
+			}
+		}
+	}
 	nf := 0
 	for k, v := range faults {
 		t = append(t, "has:"+k)
